@@ -365,6 +365,11 @@ def run_cli_subprocess(res, q, A, hdr, exp, cfg, scratch, via_stdin):
 
 def cases(sh):
     qs, named = queries()
+    if sh.get('tier') == 'thorough':
+        # thorough: the 21 structurally different base queries of C08 as well (every clause and join kind)
+        from vf.checks import c08
+        extra = [q for q in c08.bases(0)[0] if not any(refql.strip_alias(it)[0] in ('unnest',) for it in q.get('items', []))]
+        qs = qs + [dict(q, join=(dict(q['join'], keys=[(F('a', 1), F('b', 1))]) if q.get('join') else None)) for q in extra]
     out = []
     for q in qs:
         for A in TABLES:
@@ -402,6 +407,9 @@ def run_shard(sh):
             if idx % sh['nshards'] != sh['shard']:
                 continue
             exp = expected(q, A, hdr)
+            if exp.error is None and any(v is None or isinstance(v, (list, tuple)) for r in exp.records for v in r):
+                res.feat('skipped_non_string_results')      # the quantifier: results over string cells only (None / list values are rendered differently by each backend by design)
+                continue
             res.states += 1
             if sh['part'] == 'api':
                 run_api_entry_points(res, q, A, hdr, exp, scratch)
@@ -449,7 +457,7 @@ def main(tier, seed):
     shards = []
     for part, n in (('api', 16), ('cli_in', 16), ('cli_sub', 32)):
         for i in range(n):
-            shards.append({'part': part, 'shard': i, 'nshards': n})
+            shards.append({'part': part, 'shard': i, 'nshards': n, 'tier': tier})
     res = core.run_shards('vf.checks.c13', shards)
     return core.finish(PID, tier, seed, res, t0,
         rule='34 queries x 3 tables x {header, no header} (+ named-column queries) through 6 library entry points (query_table, query with Table* classes, query with own plain classes, query_csv, pandas, sqlite->csv), '
